@@ -171,7 +171,7 @@ func prefill(d *memdev.Dev, c *tblCase) {
 	}
 	d.Poke(boot, 0)
 	switch c.Over {
-	case "gpt":
+	case "gpt", "gpt-rmw":
 		old := &gpt.Table{LogicalSectorSize: c.LSS, PhysicalSectorSize: c.LSS, ProtectiveMBR: true, GUID: "11111111-2222-4333-8444-555555555555"}
 		first, last := gptGeometry(c.DiskSize, c.LSS)
 		for i := 1; i <= 5; i++ {
@@ -206,6 +206,30 @@ func runTblCase(c *tblCase) (sig, msg, outcome string) {
 
 func runGPTCase(c *tblCase, d *memdev.Dev) (sig, msg, outcome string) {
 	t := buildGPT(c)
+	switch c.Over {
+	case "gpt-rmw":
+		// read - modify - write on ONE table object: the table found on the disk is read, its partition list and
+		// identity are replaced, and that same object is written back
+		var old *gpt.Table
+		var rerr error
+		if pm := guard(func() { old, rerr = gpt.Read(d, c.LSS, c.LSS) }); pm == "" && rerr == nil && old != nil {
+			old.Partitions = t.Partitions
+			old.ProtectiveMBR = t.ProtectiveMBR
+			if t.GUID != "" {
+				old.GUID = t.GUID
+			}
+			t = old
+		}
+	case "gpt-twice":
+		// the same object written twice with a different partition list
+		first, last := gptGeometry(c.DiskSize, c.LSS)
+		keep := t.Partitions
+		t.Partitions = []*gpt.Partition{{Index: 77, Start: first, End: last, Type: gpt.LinuxFilesystem, Name: "first-version", GUID: partGUID(77)}}
+		if pm := guard(func() { _ = t.Write(d, c.DiskSize) }); pm != "" {
+			return "gpt-write-panic|" + pm, "Table.Write panicked: " + pm, "panic"
+		}
+		t.Partitions = keep
+	}
 	var werr error
 	if pm := guard(func() { werr = t.Write(d, c.DiskSize) }); pm != "" {
 		return "gpt-write-panic|" + pm, "Table.Write neither accepted nor refused the table: " + pm, "panic"
@@ -503,7 +527,7 @@ func enumC02(quick bool) []tblCase {
 		c := dk
 		c.GPT = []gptPartIn{{1, "se", "first", "keep", 0, gptTypes[1], partGUID(1)}, {2, "se", "mid", "unused", 0, string(gpt.Unused), partGUID(2)}, {3, "ss", "last", "z", 1, gptTypes[0], ""}}
 		cases = append(cases, c)
-		for _, over := range []string{"gpt", "mbr", "noise"} {
+		for _, over := range []string{"gpt", "mbr", "noise", "gpt-rmw", "gpt-twice"} {
 			for _, n := range []int{0, 1, 3} {
 				c := dk
 				c.Over = over
